@@ -65,6 +65,8 @@ structure PThread where
   pend : List Nat := []
   /-- ghost: input values this producer pulled, in order -/
   pulled : List Nat := []
+  /-- ghost: values this producer put into the queue, in order -/
+  emitted : List Nat := []
   /-- consumer -/
   cpc : CPc := .boot
   /-- consumer: how the iteration ended (`StopIteration(*returned)`, the error, or `StopIteration()`
@@ -148,7 +150,7 @@ def beginIter (c : Cfg) (t : PThread) : PThread :=
 
 /-- after a queue step of the iterating consumer -/
 def afterIter (c : Cfg) (pcBefore : Pc) (s : Shared) (t : PThread) : Shared × PThread :=
-  if t.q.pc == .done then
+  if pcBefore == .bRaise then
     -- `get_batch` raised: the iteration is over
     let t1 := { t with iterOutcome := t.q.outcome }
     if c.stopOnEnd then
@@ -165,6 +167,16 @@ def afterIter (c : Cfg) (pcBefore : Pc) (s : Shared) (t : PThread) : Shared × P
                   cpc := .stopping, early := true, iterOutcome := some (.stop []) })
       else (s, t)
   else (s, t)
+
+/-- after a queue step of a producer: ghost `emitted`, and the generator's pending outputs -/
+def postProd (tid : Tid) (t : PThread) (q' : Queue.Thread) : PThread :=
+  let t1 := { t with q := q', emitted :=
+    if t.q.pc == .pPut && q'.pc == .pStAcq then t.emitted ++ [t.q.v.2] else t.emitted }
+  if q'.pc == .eNext then enterNext tid t1 else t1
+
+/-- after a step of the consumer's `maybe_stop` -/
+def postStop (t : PThread) (q' : Queue.Thread) : PThread :=
+  if q'.pc == .done then { t with q := q', cpc := .shutdown } else { t with q := q' }
 
 /-- One step of thread `tid`. -/
 def step (F : Nat → Option (List Nat)) (c : Cfg) (tid : Tid) (alt : Bool) : StepResult :=
@@ -189,23 +201,22 @@ def step (F : Nat → Option (List Nat)) (c : Cfg) (tid : Tid) (alt : Bool) : St
           | none => some ("acquire lock1", { c with ilock := some tid, ths := c.ths.set tid { t with ipc := .next } })
         | .next =>
           if t.useLock && c.ilock != some tid then none else
-          let (r, inputs') := pull c.inputs t.sid
+          let r := (pull c.inputs t.sid).1
+          let inputs' := (pull c.inputs t.sid).2
           if t.useLock then
             some ("next", { c with inputs := inputs', ths := c.ths.set tid { t with hand := r, ipc := .rel } })
           else
-            let (s', t') := afterPull F tid c.sh t r
-            some ("next", { c with sh := s', inputs := inputs', ths := c.ths.set tid t' })
+            some ("next", { c with sh := (afterPull F tid c.sh t r).1, inputs := inputs',
+                                   ths := c.ths.set tid (afterPull F tid c.sh t r).2 })
         | .rel =>
           if c.ilock != some tid then none else
-          let (s', t') := afterPull F tid c.sh t t.hand
-          some ("release lock1", { c with sh := s', ilock := none, ths := c.ths.set tid t' })
+          some ("release lock1", { c with sh := (afterPull F tid c.sh t t.hand).1, ilock := none,
+                                          ths := c.ths.set tid (afterPull F tid c.sh t t.hand).2 })
       | _ =>
         match stepThread c.sh t.q tid alt with
         | none => none
         | some (lbl, s', q') =>
-          let t1 := { t with q := q' }
-          let t2 := if q'.pc == .eNext then enterNext tid t1 else t1
-          some (lbl, { c with sh := s', ths := c.ths.set tid t2 })
+          some (lbl, { c with sh := s', ths := c.ths.set tid (postProd tid t q') })
     else
       -- ------------------------------------------------------------ consumer
       match t.cpc with
@@ -223,14 +234,13 @@ def step (F : Nat → Option (List Nat)) (c : Cfg) (tid : Tid) (alt : Bool) : St
         match stepThread c.sh t.q tid alt with
         | none => none
         | some (lbl, s', q') =>
-          let (s2, t2) := afterIter c t.q.pc s' { t with q := q' }
-          some (lbl, { c with sh := s2, ths := c.ths.set tid t2 })
+          some (lbl, { c with sh := (afterIter c t.q.pc s' { t with q := q' }).1,
+                              ths := c.ths.set tid (afterIter c t.q.pc s' { t with q := q' }).2 })
       | .stopping =>
         match stepThread c.sh t.q tid alt with
         | none => none
         | some (lbl, s', q') =>
-          let t1 := { t with q := q' }
-          some (lbl, { c with sh := s', ths := c.ths.set tid (if q'.pc == .done then { t1 with cpc := .shutdown } else t1) })
+          some (lbl, { c with sh := s', ths := c.ths.set tid (postStop t q') })
       | .shutdown =>
         if alt then none else
         if c.producersDone then some ("shutdown", c.setTh tid { t with cpc := .fin }) else none
